@@ -136,6 +136,9 @@ def r3_text_handlers(chk, rule='C15.R3'):
     chk.floor(rule, 8, 'text handlers')
 
 
+PY_LITERAL_FILTERS = ('escape_python', 'pyrepr', 'pystring', 'e_py', 'dorepr')
+
+
 def r4_literal_positions(chk, rule='C15.R4'):
     tm = tmodel(chk)
     chk.doc(rule, 'every {{ ... }} that places a text-valued field (description, reference, organization, '
@@ -154,9 +157,18 @@ def r4_literal_positions(chk, rule='C15.R4'):
         return best
     sites = {}
     for line, expr, state in tm.outputs():
-        if state == 'code':
-            continue
         root, path, filters = expr_info(tm.env, expr)
+        if state == 'code':
+            # a text written outside any quotes must come out of a filter that writes a *Python* literal; tojson does
+            # not (JSON writes a character beyond U+FFFF as a surrogate pair, which Python reads as two lone
+            # surrogates; it also HTML-escapes < > & ')
+            if root == 'definition' and path and path[0] in TEXT_FIELDS and path[0] not in ('lastupdated',):
+                ok_f = any(f in PY_LITERAL_FILTERS for f in filters)
+                chk.ob(rule, 'template-code-position %s%s@%s' % (path[0], ('|' + '|'.join(filters)) if filters else '',
+                                                              block_at(line)), ok_f, '%s:%s' % (tm.rel, line),
+                       'the text is written into the module outside a string literal through %s, which does not '
+                       'produce a Python string literal of that text' % ('|'.join(filters) or 'no filter'))
+            continue
         field = None
         if root == 'definition' and path and path[0] in TEXT_FIELDS:
             field = path[0]
@@ -164,7 +176,7 @@ def r4_literal_positions(chk, rule='C15.R4'):
             field = 'default.value'
         if field is None:
             continue
-        escaped = any(f in ('escape_python', 'pyrepr', 'tojson', 'pystring', 'e_py') for f in filters)
+        escaped = any(f in PY_LITERAL_FILTERS for f in filters)
         key = '%s/%s%s@%s' % (state, field, ('|' + '|'.join(filters)) if filters else '', block_at(line))
         sites.setdefault(key, []).append((line, escaped))
     for key, occ in sorted(sites.items()):
@@ -265,5 +277,15 @@ def r11_texts_not_html_escaped(chk):
                  'an HTML entity (C04.R6)', keep=lambda o: 'jinja-environment' in o.key, floor=2)
 
 
+
+def r12_borrowed_copy_has_the_requested_flavour(chk):
+    """shared with C19.R3: a borrowed module is written as it is - texts included"""
+    from rules.C19 import r3_flavour
+    common.reuse(chk, r3_flavour, ('C19.R3',), 'C15.R12',
+                 'a borrower answers only requests of its own with-texts / without-texts flavour (C19.R3): a copy '
+                 'borrowed from a with-texts repository carries DESCRIPTION etc. into the output of a run that did '
+                 'not ask for texts', floor=1)
+
+
 RULES = [r1_gated_stores, r2_switch_plumbing, r3_text_handlers, r4_literal_positions, r5_text_tokens_verbatim,
-         r6_text_field_provenance, r7_only_texts_are_gated, r8_reader_returns_the_text_as_stored, r10_revision_texts_all_kept, r9_text_reaches_the_lexer_as_given, r11_texts_not_html_escaped]
+         r6_text_field_provenance, r7_only_texts_are_gated, r8_reader_returns_the_text_as_stored, r10_revision_texts_all_kept, r9_text_reaches_the_lexer_as_given, r11_texts_not_html_escaped, r12_borrowed_copy_has_the_requested_flavour]
